@@ -6,6 +6,10 @@ claimed = {
          "§5 C07"),
  "C06": ("SX", "Exhaustive exploration (deviation bound 2 quick / 3 thorough, with a happens-before state cache) of 2-4 concurrent sync/async executions, cancellers and standalone API callers through one real bulkhead; the permit release, wait timer and cancellation share a virtual instant so all orders occur; in-flight invariant at every function entry and permit-count probe at quiescence.",
          "§5 C06"),
+ "C04": ("SX", "Exhaustive exploration (deviation bound 2 quick / 3 thorough, happens-before state cache) of 2-4 concurrent executions (sync/async, bare or under retry/timeout/fallback) and standalone callers through one real breaker: races with the opening failure, half-open trial capacity, the delay boundary, trials ended by cancellation/timeout; admission after the open event, in-flight trials and permit probes at quiescence are checked on every schedule.",
+         "§5 C04"),
+ "C08": ("SX", "Exhaustive exploration (deviation bound 2 quick / 3 thorough, happens-before state cache) of one execution under retry/hedge (+fallback, breaker, bulkhead, limiter) with exactly one cancellation source (context cancel, virtual deadline, ExecutionResult.Cancel, enclosing Timeout) placed before the first attempt, inside attempts, at attempt ends, inside delays and at delay ends; cause of the returned error, number of late attempts, promptness (virtual completion instant = cancellation instant) and fallback suppression are checked on every schedule.",
+         "§5 C08"),
 }
 na = {}
 props = [json.loads(l) for l in open('/verif/properties.jsonl')]
